@@ -159,6 +159,28 @@ func ResolveImpl(client protocol.Client, suffix string, placed []fx.Placed, opts
 	return p.Resolve(suffix, opts...)
 }
 
+// ResolveImplTwice resolves with one processor instance twice (a deployment keeps one processor for every resolution).
+func ResolveImplTwice(client protocol.Client, suffix string, placed []fx.Placed) (rm1 *protocol.ResolutionModel, err1 error, rm2 *protocol.ResolutionModel, err2 error) {
+	var pub fx.SliceStore
+	var unpub unpubStore
+	for _, pl := range placed {
+		ao := pl.Anchored(suffix)
+		if pl.Published {
+			pub = append(pub, ao)
+		} else {
+			unpub = append(unpub, ao)
+		}
+	}
+	var popts []processor.Option
+	if len(unpub) > 0 {
+		popts = append(popts, processor.WithUnpublishedOperationStore(unpub))
+	}
+	p := processor.New("verif", pub, client, popts...)
+	rm1, err1 = p.Resolve(suffix)
+	rm2, err2 = p.Resolve(suffix)
+	return
+}
+
 // ResolveModel resolves the placements with the reference model.
 func ResolveModel(placed []fx.Placed, cut *sidetree.Cut, maxDelta uint64) (*sidetree.State, error) {
 	ops := make([]*sidetree.Op, len(placed))
